@@ -15,7 +15,7 @@ import YaegiVerif.Expected.C11
    ITEM = (const x K last) [K = (num k) iota (ref x) (bin op K K); one spec of a const declaration, last closes it]
           (var x E) (closure x B) (func f B) (type t) (method t m B) (init B) (stmt S) (define x E)
    E    = (num k) arg recv (glob x) (bin op E E) (call f E) (callv x E) (mcall t m E E)
-   S    = (print tag E) (set x E) (eval E)          B = (body none|E (S…) E)
+   S    = (print tag E) (set x E) (eval E) (lit S)          B = (body none|E (S…) E)
    The facts (resizeFrame copies, funcDecl overwrites, …) are the regenerated ones. -/
 namespace YaegiVerif.Driver.C11
 open YaegiVerif YaegiVerif.Piecewise
@@ -45,7 +45,8 @@ partial def parseE : Sexp → Option SExpr
     some (.mcall t m r' a')
   | _ => none
 
-def parseS : Sexp → Option SStmt
+partial def parseS : Sexp → Option SStmt
+  | .list [.atom "lit", s] => (parseS s).map .lit
   | .list [.atom "print", tag, e] => do
     let t ← tag.nat?
     let e' ← parseE e
